@@ -137,6 +137,7 @@ class Interp:
         self.loop_ordinals = {}
         self.drops = []
         self.qctx = []
+        self.target_depth = 0
         self.seq_classes = {}
         self.extra_outputs = {}
 
@@ -294,6 +295,46 @@ class Interp:
             cache[schema] = self.fresh(schema.lower(), schema)
         return cache[schema]
 
+    # ------------------------------------------------------------ taint (C16)
+    def taint_of(self, v, depth=0):
+        """Bool term: may the printable form of v contain a secret?"""
+        if depth > 6:
+            return smt.FALSE
+        if isinstance(v, SStr):
+            return v.taint if v.taint is not None else smt.FALSE
+        if isinstance(v, SOpt):
+            return smt.And(smt.Not(v.isnone), self.taint_of(v.val, depth + 1))
+        if isinstance(v, (tuple, list)):
+            return smt.Or(*[self.taint_of(x, depth + 1) for x in v])
+        if isinstance(v, (MList, MDict)):
+            p = self.heap[v.oid]
+            if isinstance(p, tuple):
+                return smt.Or(*[self.taint_of(x, depth + 1) for x in p])
+            if isinstance(p, dict):
+                return smt.Or(*[self.taint_of(x, depth + 1) for x in p.values()])
+            return smt.FALSE
+        if isinstance(v, Obj):
+            f = self.heap[v.oid]
+            if isinstance(v.cls, type) and issubclass(v.cls, BaseException):
+                return self.exc_taint(v, depth + 1)
+            if '@taint' in f:
+                return f['@taint']
+        return smt.FALSE
+
+    def exc_taint(self, e, depth=0):
+        """taint of an exception as a logging consumer sees it: its arguments and the
+        __cause__ / (unsuppressed) __context__ chain"""
+        f = self.heap[e.oid]
+        parts = [self.taint_of(a, depth + 1) for a in f.get('args', ())]
+        if '@taint' in f:
+            parts.append(f['@taint'])
+        cause = f.get('__cause__', None)
+        if cause is not None:
+            parts.append(self.taint_of(cause, depth + 1))
+        elif f.get('__context__') is not None and not f.get('__suppress_context__'):
+            parts.append(self.taint_of(f['__context__'], depth + 1))
+        return smt.Or(*parts)
+
     # ------------------------------------------------------------ decisions
     def assume(self, t):
         if smt.is_true(t):
@@ -307,6 +348,10 @@ class Interp:
             if smt.is_true(cond):
                 return True
             if smt.is_false(cond):
+                return False
+            if self.known(cond):
+                return True
+            if self.known(smt.Not(cond)):
                 return False
         if self.pure:
             raise NeedFork()
@@ -443,7 +488,9 @@ class Interp:
                 and not isinstance(b, bool):
             return SInt(smt.Ite(c, self.term_of(a), self.term_of(b)))
         if isinstance(a, (str, SStr)) and isinstance(b, (str, SStr)):
-            return SStr(smt.Ite(c, self.term_of(a), self.term_of(b)))
+            ta, tb = self.taint_of(a), self.taint_of(b)
+            taint = None if (smt.is_false(ta) and smt.is_false(tb)) else smt.Ite(c, ta, tb)
+            return SStr(smt.Ite(c, self.term_of(a), self.term_of(b)), taint)
         if isinstance(a, SRef) and isinstance(b, SRef) and a.cls == b.cls:
             return SRef(smt.Ite(c, a.t, b.t), a.cls)
         if isinstance(a, SSetV) and isinstance(b, SSetV):
